@@ -269,6 +269,32 @@ example : outcome Cfg.checked ⟨.d2 2 3, .lf 1 0 (.range (.lit 1) (.lit 2)), so
 example : outcome Cfg.checked ⟨.d2 2 3, .fl .all 1 1, some (.two (.lit 1) (.lit 2))⟩
     = some [[(0, 1), (1, 1)], [(0, 2), (1, 2)]] := by decide
 
+/-- Finding C23-F4 (open): on the tree as it is a single subscript on a 2-D array indexes the storage linearly —
+    `x[2]` on `Real x[2,3]` is the element `x[2,1]`, and `x[1:2]` two elements of the first column. -/
+theorem single_subscript_is_linear :
+    outcome Cfg.checked ⟨.d2 2 3, .f1 (.idx (.lit 2)), none⟩ = some [[(1, 0)]] ∧
+    outcome Cfg.checked ⟨.d2 2 3, .f1 (.range (.lit 1) (.lit 2)), none⟩ = some [[(0, 0)], [(1, 0)]] := by
+  decide
+
+/-- With the proposed padding (C23-3) a single subscript on `Real x[n, m]` selects whole rows: exactly the
+    denoted rows, all of them existing, each with all `m` columns. -/
+theorem padded_single_subscript_selects_rows (n m : Nat) (a : FSub) (rows : List (List Pos))
+    (h : outcomePadded Cfg.checked ⟨.d2 n m, .f1 a, none⟩ = some rows) :
+    ∃ da, a.denote n = some da ∧ InRange n da ∧ rows = norm (mat2 (pos da) (pos (upRange 1 1 m))) := by
+  obtain ⟨da, db, hda, hdb, hra, _, hrows⟩ := eq_2d_sound n m a .all rows h
+  simp only [FSub.denote, Option.some.injEq] at hdb
+  subst hdb
+  exact ⟨da, hda, hra, hrows⟩
+
+example : outcomePadded Cfg.checked ⟨.d2 2 3, .f1 (.idx (.lit 2)), none⟩ = some [[(1, 0), (1, 1), (1, 2)]] := by decide
+
+/-- …and a bad single subscript is rejected. -/
+theorem padded_single_subscript_error (n m : Nat) (a : FSub) (h : Bad n a) :
+    outcomePadded Cfg.checked ⟨.d2 n m, .f1 a, none⟩ = none :=
+  eq_2d_error n m a .all (Or.inl h)
+
+example : Bad 2 (.idx (.lit 3)) := Or.inr ⟨[3], rfl, 3, by simp, by decide⟩
+
 /-- A subscript on a scalar always makes generation raise. -/
 theorem scalar_subscript_error (cfg : Cfg) (s : Subs) (l : Option LoopRange) :
     outcome cfg ⟨.scalar, s, l⟩ = none := by
